@@ -24,6 +24,11 @@ let main (args : string list) : unit =
             print_endline ("RECS " ^ String.concat " " (List.map (fun r ->
               Printf.sprintf "%s:%s:%s:%s:%s" (dec_of_n r.M.r_sec) (dec_of_n r.M.r_nsec) (dec_of_n r.M.r_caplen)
                 (dec_of_n r.M.r_len) (hex_of_bytes r.M.r_frame)) recs)))
+       | "reasm" :: ds ->
+         let fs = List.map (fun h -> M.fragment_of (bytes_of_hex h)) ds in
+         (match M.reassemble fs with
+          | None -> print_endline "NONE"
+          | Some b -> print_endline ("OK " ^ hex_of_bytes b))
        | [] -> print_endline ""
        | _ -> print_endline "BAD")
     done
